@@ -49,7 +49,7 @@ try:
     for p in props:
         t0 = time.time()
         e2 = dict(env, PIKEVC_REPO=scratch, PIKEVC_OUT=outdir, PIKEVC_VERIF="/verif")
-        pr = subprocess.run(["/verif/bin/pikevc", "check", p, "quick"], env=e2, capture_output=True, text=True, timeout=900)
+        pr = subprocess.run(["/verif/bin/check", p, "quick"], env=e2, capture_output=True, text=True, timeout=900)
         lines = [l.replace(scratch + "/", "") for l in pr.stdout.splitlines() if l.startswith(("VIOLATION", "PASS", "CHECK-ERROR", "KNOWN"))]
         meta["checks"][p] = {"exit": pr.returncode, "lines": [l[:400] for l in lines][:12], "wall_s": round(time.time() - t0, 1)}
     shutil.rmtree(outdir, ignore_errors=True)
